@@ -148,6 +148,7 @@ Proof. exact record_name_refuted. Qed.
 Print Assumptions C40_record_name_refuted.
 
 (* ---- bundle contents as a set (P-spec) ---------------------------------------------------- *)
+Local Open Scope nat_scope.
 (* P = what a repository stores for a revision (parents, inventory, texts, metadata: what the
    testament attests); pay = the source repository's payload.  install (bundle ...) into a
    repository that has the base's present ancestry is, as a finite map, what fetch gives. *)
